@@ -45,6 +45,28 @@ CHECKS = {
             "operations; cover replayed on EventQueue with OrderedQueueList (ascending, descending, by-argument comparators); TraceDQ.tla keeps the "
             "pending events stably sorted by the world's comparator and demands exactly-once as for C05.",
             "TLA+ model checking (TLC) + transition-cover replay + TLC trace validation with comparator-parametric abstract queue"),
+    "C06": (MC, "7/C06", "conc",
+            "ConcQueue.tla (threads x micro-steps of eventqueue.h, ghost event ledger) is model-checked by TLC over all interleavings of the scenario "
+            "sets; the real EventQueue runs the producer/consumer scenarios under a controlled scheduler that owns every mutex, atomic and condition "
+            "variable (GeneralThreading policy) with depth-first schedule enumeration up to a preemption bound plus seeded random schedules; TLC "
+            "validates every recorded API history against TraceCQ.tla (no event twice, none lost after drain, payload intact, per-producer order, "
+            "no deadlock, no unlocked structural access).",
+            "TLA+ model checking (TLC) of the interleaving model + systematic schedule exploration of the real code + TLC trace validation"),
+    "C07": (MC, "7/C07", "conc",
+            "ConcQueue.tla models wait as predicate-under-mutex / atomic unlock+sleep / notify_one and the DisableQueueNotify ctor/dtor steps; TLC "
+            "checks NoLostWakeup on all interleavings and, with the pre-repair defect switched on, prints the lost wake-up schedule which is replayed "
+            "on the real code. Waiter/producer/DisableQueueNotify scenarios run on the real EventQueue under the controlled scheduler (preemption "
+            "in the window between predicate and blocking included); TraceCQ.tla decides: a stuck state with an event surely pending, no "
+            "DisableQueueNotify possibly alive and a sleeping waiter is a lost wake-up; wait returns only if its predicate could have held; "
+            "waitFor returns false only after the (virtual) time-out.",
+            "TLA+ model checking (TLC) incl. counterexample replay + systematic schedule exploration of the real code + TLC trace validation"),
+    "C11": (MC, "7/C11", "conc",
+            "ConcQueue.tla models emptyQueue() as two separate reads and records which enqueues had finished when the call began; TLC checks the "
+            "implication on all interleavings (and finds the window when the reads are swapped). Observer scenarios run on the real EventQueue with "
+            "a scheduling point before and after every atomic operation and at the unlocked list read; TraceCQ.tla demands that a true result (or a "
+            "time-out with no DisableQueueNotify) implies complete consumption of everything enqueued before the call began. The single-threaded "
+            "form (observer is a listener) is decided by C05's cover through TraceDQ.tla.",
+            "TLA+ model checking (TLC) + systematic schedule exploration of the real code + TLC trace validation"),
 }
 
 NOT_YET = "check not built yet in this round (see DESIGN.md section 11 for the build order); no claim is made"
@@ -70,6 +92,8 @@ def main():
         "engines": [
             {"name": "seq", "path": "lib/seqengine.py", "serves_properties": sorted(k for k, v in CHECKS.items() if v[2] == "seq"),
              "kind_free_text": "TLC model checking of implementation-shaped TLA+ specs, transition-cover scripts replayed on the real headers, TLC trace validation against abstract specs"},
+            {"name": "conc", "path": "lib/concengine.py", "serves_properties": sorted(k for k, v in CHECKS.items() if v[2] == "conc"),
+             "kind_free_text": "TLC model checking of threads x micro-steps TLA+ models, controlled-scheduler exploration of the real code (dfs with preemption bound, random, TLC counterexample replay), TLC trace validation against the abstract concurrent oracle"},
         ],
         "checks": [],
         "not_applicable": [],
